@@ -54,11 +54,12 @@ theorem readFile_buffer_first (s : State) (hb : Inv s.buffer) (c : Bytes) (P : L
 theorem writeFile_buffer (s : State) (hb : Inv s.buffer) (c data : Bytes) (P : List Name) (hn : norm c = some P)
     (hok : (writeFile s c data).2 = .ok) :
     Inv (writeFile s c data).1.buffer ∧ abs (writeFile s c data).1.buffer P = some (.file data) := by
-  have hw := root_writeFile s.buffer hb c data P hn
-  have hok' : (Root.writeFile s.buffer c data).2 = .ok := hok
+  have hn' := Path.norm_cleanPath c P hn
+  have hw := root_writeFile s.buffer hb (cleanPath c) data P hn'
+  have hok' : (Root.writeFile s.buffer (cleanPath c) data).2 = .ok := hok
   obtain ⟨_, hst⟩ := mut_ok hw.1 hok'
-  refine ⟨hw.2.1.inv hb (Path.norm_plain c P hn), ?_⟩
-  show abs (Root.writeFile s.buffer c data).1 P = _
+  refine ⟨hw.2.1.inv hb (Path.norm_plain _ P hn'), ?_⟩
+  show abs (Root.writeFile s.buffer (cleanPath c) data).1 P = _
   rw [hst]; exact writeSt_at _ _ _
 
 theorem writer_buffer (s : State) (hb : Inv s.buffer) (c : Bytes) (cs : List Bytes) (P : List Name)
@@ -269,6 +270,66 @@ theorem commit_fail_reported (rm rma mk wr : List Bytes) (k : Nat) (s : State)
           have a4 := c4.2 rfl
           simp only [] at a1 a2 a3 a4 c1 c2 c3 c4
           omega
+
+/-! ### a call that fails journals nothing for Commit to replay -/
+
+theorem jaddIf_of_ne (r : Result) (j : List Bytes) (k : Bytes) (h : r ≠ .ok) : jaddIf r j k = j := by
+  simp [jaddIf, h]
+
+theorem copy_failed (s : State) (a b : Bytes) (h : (copy s a b).2 ≠ .ok) :
+    (copy s a b).1.write = s.write ∧ (copy s a b).1.remove = s.remove ∧ (copy s a b).1.removeAll = s.removeAll := by
+  unfold copy at h ⊢
+  simp only [] at h ⊢
+  split
+  · exact ⟨rfl, rfl, rfl⟩
+  · next hov =>
+    rw [if_neg hov] at h
+    simp only [copier] at h ⊢
+    exact ⟨jaddIf_of_ne _ _ _ h, trivial, trivial⟩
+
+theorem stepCache_failed (s : State) (op : Op) (h : (stepCache s op).2 ≠ .ok) :
+    (stepCache s op).1.write = s.write ∧ (stepCache s op).1.remove = s.remove
+    ∧ (stepCache s op).1.removeAll = s.removeAll := by
+  cases op <;> simp only [stepCache] at h ⊢ <;> try exact ⟨trivial, trivial, trivial⟩
+  case copy a b => exact copy_failed s a b h
+  case copyDirectory a b =>
+    unfold copyDirectory at h ⊢
+    simp only [] at h ⊢
+    split
+    · exact ⟨rfl, rfl, rfl⟩
+    · next hc => rw [if_neg hc] at h; exact copy_failed s _ _ h
+  case copyFile a b =>
+    unfold copyFile at h ⊢
+    simp only [] at h ⊢
+    split
+    · exact ⟨rfl, rfl, rfl⟩
+    · next hc => rw [if_neg hc] at h; exact copy_failed s _ _ h
+  case mkdirAll p => exact ⟨rfl, rfl, rfl⟩
+  case writeFile p d => exact ⟨jaddIf_of_ne _ _ _ h, rfl, rfl⟩
+  case writer p c => exact ⟨jaddIf_of_ne _ _ _ h, rfl, rfl⟩
+  case remove p => exact ⟨rfl, jaddIf_of_ne _ _ _ h, rfl⟩
+  case removeAll p => exact ⟨rfl, rfl, jaddIf_of_ne _ _ _ h⟩
+
+/-- a call that does not answer `ok` (through any handle) leaves the write, remove and removeAll journals as they
+were: nothing of it will be replayed by Commit (`MkdirAll` journals its path in any case; Commit replays such an
+entry only while the buffer has that directory) -/
+theorem step_failed (h : Handle) (s : State) (op : Op) (hr : (step h s op).2 ≠ .ok) :
+    (step h s op).1.write = s.write ∧ (step h s op).1.remove = s.remove ∧ (step h s op).1.removeAll = s.removeAll := by
+  cases h with
+  | cache => exact stepCache_failed s op hr
+  | sub base =>
+    simp only [step] at hr ⊢
+    split
+    · next op' hop => rw [hop] at hr; exact stepCache_failed s op' hr
+    · exact ⟨rfl, rfl, rfl⟩
+
+/-- `Copy*` with a source and destination that are the same node or contain one another is refused and changes
+nothing -/
+theorem copy_overlap_refused (s : State) (a b : Bytes)
+    (h : overlaps (cleanPath a) (cleanPath b) = true) : copy s a b = (s, .err) := by
+  unfold copy
+  simp only [srcFS]
+  simp [h]
 
 end Cache
 end Goat
